@@ -46,6 +46,8 @@ def main():
     os.chdir(cwd)
     try:
         mod = importlib.import_module("pvm.checks." + a.prop.lower())
+        if hasattr(mod, "pre_import"):
+            mod.pre_import()      # e.g. install the cache shadow hook
         import pyunicorn  # noqa
         ctx.note("pyunicorn_file", pyunicorn.__file__)
         mod.run(ctx)
